@@ -106,6 +106,17 @@ def int_const(n):
     return None
 
 
+def err_consts(e):
+    """non-zero integer constants that an err_t-valued expression can evaluate to (through ?: arms)"""
+    e = strip(e)
+    c = int_const(e)
+    if c is not None:
+        return [c] if c != 0 else []
+    if e["kind"] == "ConditionalOperator":
+        return err_consts(e["inner"][1]) + err_consts(e["inner"][2])
+    return []
+
+
 def lv_key(n):
     """canonical text of a simple lvalue (variable or member chain), else None"""
     n = strip(n)
@@ -454,7 +465,12 @@ class Fn:
                 out.append([("setunk", self.blobs.index(tk))])
         elif tk is not None and tk == self.code:
             c = int_const(rhs)
-            out.append([("code", "ok" if c == 0 else ("bad" if c is not None else "unk"))])
+            if r["kind"] == "CallExpr" and callee_name(r) in VERIFY and out and out[-1] == [("vcall", False)]:
+                out[-1] = [("vcall", True)]      # code = V(…): the verification result lives in `code`
+            else:
+                for k in err_consts(rhs):
+                    out.append([("cls", k)])
+                out.append([("code", "ok" if c == 0 else ("bad" if c is not None else "unk"))])
         else:
             self.ev_lvalue(lhs, out, write=True)
 
@@ -489,7 +505,8 @@ class Fn:
             out.append([("use", v)])
         out.append([("call", self.call_id(cn))])
         if cn in VERIFY:
-            out.append([("vfy",)])
+            # result pending; `to_code` is patched to True by ev_assign when the call is `code = V(…)`
+            out.append([("vcall", False)])
         if cn in ZERO or (cn == "memSet" and len(args) == 3 and int_const(args[1]) == 0):
             for d in self.roots_of(args[0], "out"):
                 out.append([("zero", d)])
@@ -528,6 +545,8 @@ class Fn:
             return ("null", self.blobs.index(k), False)
         if k is not None and k == self.code:
             return ("code", True)
+        if x["kind"] == "CallExpr" and callee_name(x) in VERIFY and not x.get("type", {}).get("qualType", "").startswith("err_t"):
+            return ("vres", x, True)        # truthy = verification succeeded
         if x["kind"] == "BinaryOperator" and x["opcode"] == "=":
             r = strip(x["inner"][1])
             if r["kind"] == "CallExpr" and callee_name(r) in RESIZE and lv_key(x["inner"][0]) in self.rtemp:
@@ -554,6 +573,16 @@ class Fn:
                 return ("ifnull", t[1], T, E) if t[2] else ("ifnull", t[1], E, T)
             if t[0] == "code":
                 return ("ifcode", T, E) if t[1] else ("ifcode", E, T)
+            if t[0] == "vres":
+                # `V(…)` used as a truth value: both arms possible, each labelled with the result
+                atoms = []
+                self.ev_call(t[1], atoms)
+                cid = self.nconds
+                self.nconds += 1
+                on_true, on_false = (T, E) if t[2] else (E, T)
+                return self.seq([("atom", a) for a in atoms] + [("ite", cid,
+                                self.seq([("atom", [("vres", True)]), on_true]),
+                                self.seq([("atom", [("vres", False)]), on_false]))])
             if t[0] == "rtemp":
                 # exact: success -> the arm for "non-null", failure (x keeps its block) -> the arm for "null"
                 r = strip(t[1]["inner"][1])
@@ -668,6 +697,8 @@ class Fn:
                 rv = ("code",)
             else:
                 rv = ("unk",)
+                for k in err_consts(e):
+                    atoms.append([("cls", k)])
             return self.seq([("atom", a) for a in atoms] + [("ret", rv)])
         if k == "BreakStmt":
             if not self.ctx or self.ctx[-1] != "loop":
@@ -756,6 +787,14 @@ class Fn:
     def expr_stmt(self, e):
         atoms = []
         self.ev_expr(e, atoms)
+        se = strip(e)
+        if se["kind"] == "CallExpr" and se.get("type", {}).get("qualType") == "err_t":
+            # err_t result discarded: resolved after all functions are known (see mark_discards)
+            cn = callee_name(se)
+            for a in reversed(atoms):
+                if a == [("call", self.call_id(cn))]:
+                    a.append(("calleeFail?", self.call_id(cn)))
+                    break
         return self.seq([("atom", a) for a in atoms])
 
     def run(self):
@@ -770,8 +809,10 @@ def lean_ev(ev):
     t = ev[0]
     if t == "code":
         return ".code .%s" % ev[1]
-    if t == "vfy":
-        return ".vfy"
+    if t == "vcall":
+        return ".vcall %s" % ("true" if ev[1] else "false")
+    if t == "vres":
+        return ".vres %s" % ("true" if ev[1] else "false")
     return ".%s %d" % (t, ev[1])
 
 
@@ -794,7 +835,9 @@ def lean_cfg(c, ind=1):
         return pad + ".cont"
     if k == "ret":
         r = c[1]
-        return pad + ".ret " + {"ok": ".ok", "code": ".code", "unk": ".unk"}.get(r[0], "(.err %s)" % (r[1] if len(r) > 1 else 0))
+        if r[0] == "err":
+            return pad + "retErr %d" % r[1]
+        return pad + ".ret " + {"ok": ".ok", "code": ".code", "unk": ".unk"}[r[0]]
     if k == "atom":
         evs = c[1]
         if len(evs) == 2 and evs[0][0] == "allocOk":
@@ -872,6 +915,87 @@ def _worker(src):
     return translate_file(src)
 
 
+def events_of(c, acc):
+    k = c[0]
+    if k == "atom":
+        acc.extend(c[1])
+    elif k == "seq":
+        for x in c[1]:
+            events_of(x, acc)
+    elif k in ("ite", "ifnull"):
+        events_of(c[2], acc)
+        events_of(c[3], acc)
+    elif k == "ifcode":
+        events_of(c[1], acc)
+        events_of(c[2], acc)
+    elif k in ("loop", "blk"):
+        events_of(c[1], acc)
+    return acc
+
+
+def classes_of(c, acc):
+    """(set of class constants, passes?) of a skeleton — mirrors Cfg.classes / Cfg.passes"""
+    k = c[0]
+    p = False
+    if k == "ret":
+        if c[1][0] == "err":
+            acc.add(c[1][1])
+        p = c[1][0] in ("code", "unk")
+    elif k == "atom":
+        for e in c[1]:
+            if e[0] == "cls":
+                acc.add(e[1])
+    elif k == "seq":
+        for x in c[1]:
+            p |= classes_of(x, acc)
+    elif k in ("ite", "ifnull"):
+        p = classes_of(c[2], acc) | classes_of(c[3], acc)
+    elif k == "ifcode":
+        p = classes_of(c[1], acc) | classes_of(c[2], acc)
+    elif k in ("loop", "blk"):
+        p = classes_of(c[1], acc)
+    return p
+
+
+def mark_discards(fns):
+    """`g(…);` with g an err_t function whose result is discarded: if g (transitively) allocates,
+    its allocation may fail unnoticed -> alternative event calleeFail; otherwise the marker is dropped"""
+    byname = {}
+    for f in fns:
+        byname.setdefault(f["name"], f)
+    alloc = {f["name"] for f in fns if any(e[0] in ("allocOk", "resizeOk") for e in events_of(f["cfg"], []))}
+    changed = True
+    while changed:
+        changed = False
+        for f in fns:
+            if f["name"] not in alloc and any(c in alloc for c in f["calls"]):
+                alloc.add(f["name"])
+                changed = True
+
+    def fix(c, f):
+        k = c[0]
+        if k == "atom":
+            evs = []
+            for e in c[1]:
+                if e[0] == "calleeFail?":
+                    if f["calls"][e[1]] in alloc:
+                        evs.append(("calleeFail", e[1]))
+                else:
+                    evs.append(e)
+            return ("atom", evs)
+        if k == "seq":
+            return ("seq", [fix(x, f) for x in c[1]])
+        if k in ("ite", "ifnull"):
+            return (k, c[1], fix(c[2], f), fix(c[3], f))
+        if k == "ifcode":
+            return (k, fix(c[1], f), fix(c[2], f))
+        if k in ("loop", "blk"):
+            return (k, fix(c[1], f))
+        return c
+    for f in fns:
+        f["cfg"] = fix(f["cfg"], f)
+
+
 def translate_all():
     import multiprocessing
     files = c_files()
@@ -890,6 +1014,7 @@ def translate_all():
             f["lname"] = f["name"]
         seen[f["name"]] = 1
     fns.sort(key=lambda f: (f["src"], f["line"] or 0))
+    mark_discards(fns)
     return fns, bad
 
 
